@@ -51,6 +51,8 @@ func (s *Sender) Run(ctx context.Context) {
 			for {
 				if stream == nil {
 					sink = s.Sink
+					// nothing is held: the context of a stream completed earlier must not be watched any more
+					streamCancel = nil
 				} else {
 					// still owe the held stream its callback: do not take another one
 					sink = nil
